@@ -161,7 +161,9 @@ func genNested(r *prng.Rng) nestedCase {
 	return nc
 }
 
-func timeFrom(r *prng.Rng) time.Time { return time.Unix(int64(r.Intn(1<<31)), int64(r.Intn(1e9))).UTC() }
+func timeFrom(r *prng.Rng) time.Time {
+	return time.Unix(int64(r.Intn(1<<31)), int64(r.Intn(1e9))).UTC()
+}
 
 func asciiBytes(r *prng.Rng, n int) []byte {
 	b := make([]byte, n)
